@@ -1137,6 +1137,10 @@ func main() {
 	}
 
 	phase("B zero-lead proofs")
+	if n := r.Get("observed_helper_VRFProve2Value_differs_from_output"); n > 0 {
+		r.Note("observation (not judged): consensus.ConsensusHelperImpl.VRFProve2Value(header prove value) differed from VRFProof2Hash of the carried proof for %d of %d honest proofs that start with a zero byte (no left padding before taking the first 32 bytes)",
+			n, n+r.Get("observed_helper_VRFProve2Value_equals_output"))
+	}
 	// ---- C. qualification rule
 	stakes := []uint64{0, 1, 2, 3, 14, 15, 19, 20, 24, 25, 26, 100, 2000, 40000, 1000000, 1 << 53, 1<<53 + 1, 1 << 63}
 	if r.Thorough() {
